@@ -36,7 +36,7 @@ def main(argv):
                 bad.append(name)
                 continue
             c = subprocess.run([os.path.join(VERIF, "check"), prop, "--no-selfcheck", "--no-shrink"], env=dict(os.environ, VERIF_REPO=repo),
-                               capture_output=True, text=True, timeout=7200)
+                               capture_output=True, text=True, timeout=2400)
             first = [l for l in c.stdout.split("\n") if l.startswith(("violation ", "HARNESS"))][:1]
             verdict = {0: "MISSED", 1: "caught", 2: "HARNESS-ERROR"}.get(c.returncode, str(c.returncode))
             n = re.search(r"runs_affected=(\d+)", first[0]) if first else None
